@@ -55,6 +55,8 @@ fixed = [
       what='fixed: property=C14 60a4cb6 Predicate((-1,0,2)) / Predicated(*s.spec) / LexicalAbc(s.ident) for Identity and Existence sentences raised ValueError once ~1000 later items had evicted the system predicate spec from the construction cache'),
  dict(property='C18', status='fixed', commit='895ee8f', key='C18.R9/Predicates/setitem/accepted-conflict',
       what='fixed: property=C18 895ee8f Predicates([(1,0,1),(2,0,1)])[0:2] = [(0,0,1),(0,0,2)] was accepted: arriving predicates were checked against the store but not against each other, leaving two predicates with one symbol and different arities'),
+ dict(property='C14', status='fixed', commit='439b412', key='C14.R3/readonly/Operator: changing an attribute after initialisation',
+      what='fixed: property=C14 439b412 Operator / Quantifier members stayed writable after initialisation (Operator.Negation.arity = 5 succeeded): LexicalEnum used a guard keyed on LexicalAbcMeta._readonly, which is never set; NoSetAttr._clschecker also passed its arguments in the wrong order'),
 ]
 CLASSICAL = ('CPL', 'CFOL', 'K', 'D', 'T', 'S4', 'S5')
 def triage(prop, f):
